@@ -206,6 +206,7 @@ def regen(ctx):
 from . import c01_lib as L  # noqa: E402
 from . import c01_stmt as ST  # noqa: E402
 from . import c01_flow as FL  # noqa: E402
+from . import c01_const as KC  # noqa: E402
 
 PPCI_TYPES = ["char", "uchar", "short", "ushort", "int", "uint", "long", "ulong", "llong", "ullong"]
 
@@ -399,7 +400,10 @@ def check(ctx):
     sjobs = stmt_prepare(ctx)
     ejobs, ereqs, efam = events_prepare(ctx)
     fjobs, freqs = flow_prepare(ctx)
-    all_results = L.run_units(jobs + ljobs + sjobs + ejobs + fjobs)
+    kjobs = const_prepare(ctx)
+    all_results = L.run_units(jobs + ljobs + sjobs + ejobs + fjobs + kjobs)
+    kresults = all_results[len(all_results) - len(kjobs):]
+    all_results = all_results[:len(all_results) - len(kjobs)]
     fresults = all_results[len(jobs) + len(ljobs) + len(sjobs) + len(ejobs):]
     all_results = all_results[:len(jobs) + len(ljobs) + len(sjobs) + len(ejobs)]
     results, lresults = all_results[:len(jobs)], all_results[len(jobs):len(jobs) + len(ljobs)]
@@ -612,6 +616,7 @@ def check(ctx):
     stmt_finish(ctx, sjobs, sresults)
     events_finish(ctx, ejobs, eresults, ereplies, efam)
     flow_finish(ctx, fjobs, fresults, freplies)
+    const_finish(ctx, kjobs, kresults)
     check_layout(ctx, ltypes, lresults, lreplies, lsub)
     phases["layout"] = round(time.time() - t0, 1)
     t0 = time.time()
@@ -1107,6 +1112,61 @@ def events_finish(ctx, jobs, results, replies, fam):
                          f"{got[0]}, {got[1]} and {got[2]}: events `{real}` (model: `{model}`)", {"label": label, "c": text})
             elif len(w) > 3:
                 ctx.nontrivial(("assign-events", label))
+
+
+def const_prepare(ctx):
+    """constant expressions over 64-bit operands in global initialisers, static locals, case labels, array sizes and
+    enumerators (harness/c01_const.py); the constant evaluator's theorem is C27's, its effect on the program is searched here"""
+    jobs = []
+    for _ in range(6 if ctx.thorough else 1):
+        for arrays in (False, True):
+            src, checks = KC.build(ctx.rng, (60 if ctx.thorough else 30) if not arrays else 15, arrays=arrays)
+            jobs.append({"kind": "const", "src": src, "checks": checks, "calls": [(c[1], c[2]) for c in checks if c[0] == "call"]})
+    return jobs
+
+
+def const_finish(ctx, jobs, results):
+    for job, res in zip(jobs, results):
+        if "error" in res:
+            ctx.fail("cconst:compile:" + res["error"].split(":")[0], f"the front-end does not compile the constant-expression program: "
+                     f"{res['error']}", {"source": job["src"]})
+            continue
+        gcc = None
+        if ctx.thorough:
+            gcc, err = KC.run_gcc(job["src"], job["checks"])
+            if gcc is None:
+                raise common.BrokenCheck("gcc rejected the constant-expression program: " + err)
+        cr = {(n, tuple(a)): r for n, a, r in res["calls"]}
+        if "ir2py_error" in res and cr:
+            ctx.fail("cconst:not-executable", f"ir_to_python cannot load the compiled constant-expression program: {res['ir2py_error']}",
+                     {"source": job["src"]})
+        for c in job["checks"]:
+            if c[0] == "call" and "ir2py_error" in res:
+                continue
+            ctx.count("eval_const_" + c[0])
+            if c[0] == "global":
+                want, got, key = (c[3] & KC.M64).to_bytes(8, "little").hex(), res["globals"].get(c[1]), ("global", c[1])
+                gwant = c[3]
+                what = f"`{KC.TYPES[c[2]][0]} g = {c[4]};` is initialised with the bytes {got}, C gives {want} (= {c[3]})"
+            elif c[0] == "amount":
+                want, got, key = c[2], res["amounts"].get(c[1]), ("amount", c[1])
+                gwant = c[2]
+                what = f"`{c[3]}` has {got} bytes, C gives {want}"
+            else:
+                want, got, key = c[3], cr.get((c[1], tuple(c[2]))), ("call", c[1], tuple(c[2]))
+                gwant = c[3]
+                what = f"{c[4]}: {c[1]}({', '.join(str(x) for x in c[2])}) returns {got}, C gives {want}"
+            if gcc is not None:
+                ctx.count("eval_const_gcc")
+                gv = gcc.get(key)
+                if c[0] == "global" and gv is not None and gv < 0 <= gwant:
+                    gv &= KC.M64
+                if gv != gwant:
+                    raise common.BrokenCheck(f"the constant-expression reference disagrees with gcc on {key}: gcc {gcc.get(key)}, reference {gwant} ({c[4]})")
+            if got != want:
+                ctx.fail(f"cconst:{c[0] if c[0] != 'call' else c[1][0]}:{c[5] if c[0] != 'amount' else c[4]}", what, {"check": list(c[:5]), "source": job["src"]})
+            else:
+                ctx.nontrivial(("const", c[0], c[1], c[4] if c[0] != "amount" else c[3]))
 
 
 def flow_prepare(ctx):
